@@ -385,6 +385,7 @@ class DaemonResult:
 
 def run_daemon(impl, scn, marker=True, chunking=None, logs=None, extra_env=None, workdir=None, timeout_s=60):
     """run the real daemon on the scenario; returns DaemonResult(rc, banner, steps, tail, stderr, raw_stdout)"""
+    (BUILD / "tmp").mkdir(parents=True, exist_ok=True)
     d = Path(tempfile.mkdtemp(dir=str(BUILD / "tmp"), prefix="d"))
     try:
         conf = d / "iauthd.conf"
